@@ -24,8 +24,8 @@ VERIF = os.path.dirname(os.path.dirname(os.path.abspath(__file__)))
 REPO = os.environ.get("VERIF_REPO", "/repo")
 HARNESS_DIR = os.path.join(VERIF, "harness")
 CACHE = os.path.join(VERIF, ".cache")
-EVIDENCE_DIR = os.path.join(VERIF, "evidence")
-REPLAY_DIR = os.path.join(VERIF, "replays")
+EVIDENCE_DIR = os.environ.get("VERIF_EVIDENCE_DIR") or os.path.join(VERIF, "evidence")
+REPLAY_DIR = os.environ.get("VERIF_REPLAY_DIR") or os.path.join(VERIF, "replays")
 KNOWN_FILE = os.path.join(VERIF, "KNOWN_FINDINGS.txt")
 N_SLOTS = int(os.environ.get("VERIF_SLOTS", "12"))
 DEFAULT_MEM_GB = 4.5
@@ -150,7 +150,7 @@ class Known:
                 self.fixed.append(s)
                 continue
             if s.startswith("known:"):
-                head, _, what = s[6:].partition("::")
+                head, _, what = s[6:].partition(" :: ")
                 m = re.match(r"\s*property=(\S+)\s+harness=(\S+)\s+function=(\S+)\s+description=(.*)$", head.strip())
                 if not m:
                     raise SystemExit("bad line in KNOWN_FINDINGS.txt: " + s)
@@ -386,7 +386,7 @@ def run_harness(h, src, logdir):
                 and not re.search(r"CBMC failed with status|ut of memory", out):
             # pass 2 only for failing harnesses: obtain the concrete counterexample as a unit test
             cmd2 = kani_cmd(h, slot.dir, playback=True)
-            rc2, out2, to2, wall2 = run_cmd(cmd2, src, h["timeout"], h["mem_gb"], logfile=logfile + ".playback")
+            rc2, out2, to2, wall2 = run_cmd(cmd2, src, h["timeout"], max(3 * h["mem_gb"], 16, h.get("playback_mem_gb", 0)), logfile=logfile + ".playback")
             wall += wall2
             pb = parse_kani_output(out2)["playback"] if not to2 else []
         else:
@@ -487,7 +487,7 @@ def native_replay(h, fragment, src, test_code, logdir, release=False):
         return None, "native replay did not build/run: " + strip_noise(out)[-800:]
     if int(m.group(2)) + int(m.group(3)) == 0:
         return None, "native replay matched no test"
-    panic = re.search(r"panicked at ([^\n]*)\n([^\n]*)", out)
+    panic = re.search(r"panicked at ([^\n]*)\n([^\n]*(?:\n[^\n]*)?)", out)
     return (int(m.group(3)) > 0), (panic.group(0) if panic else m.group(0))
 
 
@@ -632,6 +632,12 @@ def replay_failure(prop, fr, h, r, unlisted, src, logdir):
     rep = {"property": prop, "harness": h["id"], "qualified": h["qualified"], "features": h["features"],
            "failures": unlisted, "fragment": fr.name, "functions": h["functions"], "bounds": h["bounds"]}
     ub_only = all(("pointer" in f["description"] or "dereference" in f["description"] or "out of bounds" in f["description"] and "index" not in f["description"]) for f in unlisted)
+    if test is None and not r.get("playback"):
+        # a harness without symbolic inputs gets no playback test from Kani: replay it with an empty value list
+        fn = h["name"]
+        code = ("#[test]\nfn kani_concrete_playback_%s_noinputs() {\n    let concrete_vals: Vec<Vec<u8>> = vec![];\n"
+                "    kani::concrete_playback_run(concrete_vals, %s);\n}" % (fn, fn))
+        test = (unlisted[0], {"code": code, "kind": "assertion", "check": unlisted[0]["description"]})
     if test is None:
         rep["reproduced"] = bool(ub_only and prop == "C15")
         rep["detail"] = "Kani produced no concrete playback test for the failing check"
@@ -640,6 +646,10 @@ def replay_failure(prop, fr, h, r, unlisted, src, logdir):
         f, t = test
         rep["playback_test"] = t["code"]
         ok, detail = native_replay(h, fr, src, t["code"], logdir)
+        if ok and not any(x["description"] and x["description"] in detail for x in unlisted):
+            # the native run panicked, but not with the message of a failing check: do not count it
+            ok = False
+            detail = "native panic does not match any failing check: " + detail
         rep["reproduced"] = bool(ok)
         rep["detail"] = detail
         rep["profile"] = "dev"
